@@ -202,7 +202,7 @@ structure Taken (W : List UInt8) (s : PD) (fs : List CF) : Prop where
 
 theorem takeFrames_spec {W : List UInt8} {s : PD} (h16 : W.length ≤ 16383) (h : Inv W s) :
     Taken W (takeFrames s).1 (takeFrames s).2 ∧ (takeFrames s).1.fb = s.fb ∧ (takeFrames s).1.idx = s.idx := by
-  unfold takeFrames
+  unfold takeFrames takeWith
   split
   · cases hg : getFrames (s.queue.length + (s.queue.map (·.2.length)).sum + 1) (cryptoBudget s) s.queue with
     | mk fs q' =>
